@@ -178,8 +178,8 @@ Proof.
   - intros H; inversion H; subst. rewrite app_nil_r. split; assumption.
 Qed.
 
-Lemma fill_inv_fund m rs f : length f = length (m_fund m) -> fill_inv m rs -> fill_inv (m <| m_fund := f |>) rs.
-Proof. intros _ H. exact H. Qed.
+Lemma fill_inv_fund m rs v : fill_inv m rs -> fill_inv (m <| m_fund := upd (m_fund m) (zi (m_time m)) (Some v) |>) rs.
+Proof. intros H. exact H. Qed.
 
 Lemma fill_inv_init id tk mp0 : fill_inv (init_market id tk mp0) [].
 Proof. split; [intros o [[]|[]]|exact Logic.I]. Qed.
